@@ -147,7 +147,18 @@ class Interp:
         if t == "key":
             k = p[1]
             if re.match(r"^-?\d+$", k):
-                raise Unspec("numeric key")
+                # a quoted digits-only key: the entry of that name in a map, the element at that index in a list
+                if isinstance(v, dict):
+                    if k in v:
+                        return self.walk(rest, v[k], scope, "key")
+                    return [UNRES]
+                if isinstance(v, list):
+                    if k.startswith("-") or len(k) > 9:
+                        raise Unspec("negative / huge index")
+                    if int(k) < len(v):
+                        return self.walk(rest, v[int(k)], scope, "idx")
+                    return [UNRES]
+                return [UNRES]
             if isinstance(v, dict):
                 if k in v:
                     return self.walk(rest, v[k], scope, "key")
